@@ -272,7 +272,85 @@ print("ASYNCRT " + json.dumps(bad))
 '''
 
 
+K4_BACKGROUND_SIBLING = r'''
+import asyncio
+from graphql import *
+events = []
+async def slow(src, info):
+    events.append("a:start")
+    try:
+        await asyncio.sleep(0.01)
+    finally:
+        events.append("a:end")
+    return 1
+def boom(src, info):
+    events.append("b")
+    raise RuntimeError("boom")
+def m2(src, info):
+    events.append("m2:start")
+    return 2
+Sub = GraphQLObjectType("Sub", {"a": GraphQLField(GraphQLInt, resolve=slow), "b": GraphQLField(GraphQLNonNull(GraphQLInt), resolve=boom)})
+M = GraphQLObjectType("Mutation", {"m1": GraphQLField(Sub, resolve=lambda *_: {}), "m2": GraphQLField(GraphQLInt, resolve=m2)})
+schema = GraphQLSchema(GraphQLObjectType("Query", {"x": GraphQLField(GraphQLInt)}), M)
+async def main():
+    r = execute(schema, parse("mutation { m1 { a b } m2 }"))
+    if asyncio.iscoroutine(r):
+        r = await r
+    await asyncio.sleep(0.05)
+    # the subtree of m1 (the coroutine of `a`) must have completed before m2 starts
+    assert "a:start" not in events or events.index("a:end") < events.index("m2:start"), events
+asyncio.run(main())
+'''
+
+K5_SHARED_FUTURE = r'''
+import asyncio
+from graphql import *
+async def run(x_first):
+    loop = asyncio.get_running_loop()
+    shared = loop.create_future()          # e.g. a data loader future handed to two fields
+    gate = asyncio.Event()
+    async def x(src, info):
+        await gate.wait()
+        raise RuntimeError("x failed")
+    Sub = GraphQLObjectType("Sub", {"x": GraphQLField(GraphQLNonNull(GraphQLInt), resolve=x),
+                                    "y": GraphQLField(GraphQLInt, resolve=lambda *_: shared)})
+    Q = GraphQLObjectType("Query", {"a": GraphQLField(Sub, resolve=lambda *_: {}),
+                                    "b": GraphQLField(GraphQLInt, resolve=lambda *_: shared)})
+    task = asyncio.ensure_future(execute(GraphQLSchema(Q), parse("{ a { x y } b }")))
+    await asyncio.sleep(0); await asyncio.sleep(0)
+    if not x_first:
+        shared.set_result(7); await asyncio.sleep(0); gate.set()
+    else:
+        gate.set()
+        for _ in range(3):
+            await asyncio.sleep(0)
+        if not shared.done():
+            shared.set_result(7)
+    return (await task).formatted
+async def main():
+    want = await run(False)
+    try:
+        got = await run(True)
+    except BaseException as e:
+        raise AssertionError(f"completion order x-first: execute() raised {type(e).__name__} instead of returning {want}")
+    assert got == want, (got, want)
+asyncio.run(main())
+'''
+
+
 def native_checks(tier, seed):
+    known = []
+    for kid, code, what in (
+            ("K4-synchronous-failure-leaves-a-sibling-coroutine-running-into-the-next-mutation-field", K4_BACKGROUND_SIBLING,
+             "mutation { m1 { a b } m2 }: a awaitable, b (Int!) raises synchronously"),
+            ("K5-cancelling-a-sibling-cancels-a-future-shared-with-a-position-outside-the-nulled-subtree", K5_SHARED_FUTURE,
+             "{ a { x y } b }: y and b return the same future, x (Int!) fails first")):
+        rc, outp = run_native(code)
+        known.append({"id": f"C03/native/{kid}", "failed": rc != 0, "output": outp[-800:], "input": what})
+    return known + _native_checks2(tier, seed)
+
+
+def _native_checks2(tier, seed):
     rc2, outp2 = run_native(SERIAL_MUTATION)
     rc3, outp3 = run_native(ASYNC_RESOLVE_TYPE)
     extra = [
